@@ -1221,7 +1221,12 @@ class SyncInterpreter(BaseInterpreter[TContext, TEvent]):
                 if on_complete is not None:
                     self._queue_actor_done(child, on_complete)
                 child.stop()
-                self._actors.pop(actor_id, None)
+                # 🪪 Only drop the map entry if it is still OURS. The id may
+                #    have been taken over by a newer child (explicit ids can be
+                #    reused); popping by id alone unregistered that newer,
+                #    still running child, which `stop()` then never reached.
+                if self._actors.get(actor_id) is child:
+                    self._actors.pop(actor_id, None)
                 # 🌐 ...and from the actor-system registry, like `stop()`.
                 registry = self._system_registry()
                 for system_id, registered in list(registry.items()):
